@@ -36,6 +36,7 @@ type CrashCase struct {
 	Ty    string `json:"ty,omitempty"`
 	Ty2   string `json:"ty2,omitempty"`
 	Use   string `json:"use,omitempty"`
+	Pkg   string `json:"pkg,omitempty"`
 }
 
 // declText assembles "Decl p(X0..) descr [D] bound [T..] bound [T2..]." and one use of p.
@@ -58,6 +59,9 @@ func declText(c CrashCase) string {
 		return " bound [" + strings.Join(ts, ", ") + "]"
 	}
 	var sb strings.Builder
+	if c.Pkg != "" {
+		sb.WriteString(c.Pkg + "\n")
+	}
 	sb.WriteString("Decl " + hd)
 	if c.Descr != "" {
 		sb.WriteString(" descr [" + c.Descr + "]")
